@@ -752,8 +752,8 @@ def absurd_table_probe(ctx):
 
 def run(ctx):
     C.seam_check(ctx["report"], ctx["rundir"], "C16", wrappers=[],
-                 pairs=[("ln(10000000!/9999998!)", "ln(10000000*9999999)"), ("log(C(100000, 2), 3)", "log(4999950000, 3)"), ("x = 100000000!/99999999!; ln(x)", "ln(100000000)"),
-                        ("log10(20000!/19999!)", "log10(20000)"), ("log2(C(20000, 1))", "log2(20000)"), ("sqrt(20000!/19998!)", "sqrt(20000*19999)"),
+                 pairs=[("ln(10000000!/9999998!)", "ln(10000000*9999999)"), ("log(C(12000, 2), 3)", "log(71994000, 3)"), ("x = 100000000!/99999999!; ln(x)", "ln(100000000)"),
+                        ("log10(20000!/19999!)", "log10(20000)"), ("log2(C(12000, 1))", "log2(12000)"), ("sqrt(20000!/19998!)", "sqrt(20000*19999)"),
                         ("sin(5e-10 rad) == sin(5e-10)", "1"), ("sin(2e-10 rad + 2e-10 rad) == sin(4e-10)", "1")])
     C.config_matrix(ctx["report"], ctx["rundir"], "C16", ["sin(3.14159265)", "cos(1.57079633)", "sin(180.0000003 deg)", "tan(0.5)", "log10(1000.0000005)", "ln(2.718281828)", "log2(1024.0000005)", "log(125.00000006, 5)", "sqrt(2*10^16)", "ln(10000000!/9999998!)", "log(C(100000, 2), 3)", "sin(5e-10 rad)", "2^0.5", "floor(7/2)", "round(5/2)", "int(-7/2)", "sqrt(-1)", "log(8, 1)"])
     absurd_table_probe(ctx)
